@@ -35,7 +35,8 @@ C2 = ['v1', 'v2', 'x', 'v1', 'v10', 'v2']
 C3 = ['p;q', 'r', '', 's;t;u', 'p;q', 'r;r']
 
 LIST_ITEM = "a3.split(';')"
-ITEMS = ['a1', 'a2', 'a3', 'NR', "'lit'", 'a1 + a2', 'NR % 2 - 2', 'NR % 3 - 2', 'a2', 'a1', LIST_ITEM]
+MIXED_NUM = '[3, 2.5, 10, 0.75, -1][NR % 5]'      # ints and floats in one column (valid in both engines)
+ITEMS = ['a1', 'a2', 'a3', 'NR', "'lit'", 'a1 + a2', 'NR % 2 - 2', 'NR % 3 - 2', 'a2', 'a1', LIST_ITEM, MIXED_NUM]
 UNNEST_ITEM = "UNNEST(a3.split(';'))"
 WHERES = [None, None, "a2 == 'v1'", 'NR <= 3', 'NR <= 5', "like(a2, 'v%')", 'a1 != a1', "a2 != 'zz'"]
 
@@ -326,7 +327,7 @@ def generate(rng, tier, idx):
         sc['order'] = {'cols': cols, 'dir': rng.choice([None, 'asc', 'desc', 'DESC', 'desc'])}
         if rng.random() < 0.4:
             # keys that are not (all) in the select list; ints and strings are never mixed within one key position
-            pool = ['a1', 'a2', 'a3', 'NR', 'a2 + a1', 'NR % 2', 'NR % 3', LIST_ITEM, "[NR % 2] + a3.split(';')"]
+            pool = ['a1', 'a2', 'a3', 'NR', 'a2 + a1', 'NR % 2', 'NR % 3', LIST_ITEM, "[NR % 2] + a3.split(';')", MIXED_NUM, MIXED_NUM]
             exprs = [rng.choice(pool)]
             if rng.random() < 0.4:
                 exprs.append(rng.choice(pool))
